@@ -4,6 +4,8 @@ mod std_i18n;
 
 use std::{path::PathBuf, sync::Arc};
 
+#[cfg(feature = "verif")]
+use crate::verif_locks::RwLock;
 use crate::{
     cmd_args::CmdArgs,
     context::{
@@ -21,8 +23,6 @@ use emmylua_code_analysis::{
     uri_to_file_path,
 };
 use lsp_types::InitializeParams;
-#[cfg(feature = "verif")]
-use crate::verif_locks::RwLock;
 #[cfg(not(feature = "verif"))]
 use tokio::sync::RwLock;
 
